@@ -7,7 +7,7 @@ import shutil
 import tempfile
 
 from . import gen
-from .common import Batch, Result, canon_json, conv_tree, dec, err_class, load_corpus, raw_parse, render_doc, rng_for
+from .common import REPO, Batch, Result, canon_json, conv_tree, dec, err_class, load_corpus, raw_parse, render_doc, rng_for
 from .decsnap import full_snapshot, impl_queries, impl_tables_public
 
 
@@ -222,10 +222,10 @@ def run(ctx):
     for i in range(n_docs):
         doc, info = gen.gen_doc(rng, cc=rng.random() < 0.5, copies=rng.random() < 0.4)
         one(doc, f"g{i}", heavy=acyclic(doc))
-    files = sorted(glob.glob("/repo/tests/data/*.dec"))
-    files += sorted(glob.glob("/repo/tests/data/models/*.dec")) if tier == "thorough" else sorted(glob.glob("/repo/tests/data/models/*.dec"))[seed % 9::9]
+    files = sorted(glob.glob(REPO + "/tests/data/*.dec"))
+    files += sorted(glob.glob(REPO + "/tests/data/models/*.dec")) if tier == "thorough" else sorted(glob.glob(REPO + "/tests/data/models/*.dec"))[seed % 9::9]
     if tier == "thorough":
-        files += ["/repo/src/decaylanguage/data/DECAY_LHCB.DEC", "/repo/src/decaylanguage/data/DECAY_BELLE2.DEC"]
+        files += [REPO + "/src/decaylanguage/data/DECAY_LHCB.DEC", REPO + "/src/decaylanguage/data/DECAY_BELLE2.DEC"]
     for f in files:
         try:
             text = open(f, encoding="utf-8").read() + "\n"
